@@ -200,7 +200,13 @@ def scriptFlags (s : List UInt8) : String :=
 def showXtrV (s : List UInt8) (net : Net) : String :=
   showXtr s net ++ " same flags=" ++ scriptFlags s ++ " wpi=" ++
     (match witnessProgramInfo s with | some (v, p) => toString v ++ ":" ++ tok p | none => "-") ++ " ms=" ++
-    (match extractMultisig s with | some (r, n, _) => toString n ++ ":" ++ toString r | none => "-") ++ " rc=ok"
+    (match extractMultisig s with | some (r, n, _) => toString n ++ ":" ++ toString r | none => "-") ++ " rc=ok pd=" ++
+    (match parseScript s with
+     | none => "err"
+     | some toks =>
+       -- `PushedData`: OP_0, direct pushes and OP_PUSHDATA1/2/4 (even empty)
+       let ds := toks.filterMap (fun (op, d) => if op ≤ 0x4e then some (tok d) else none)
+       if ds.isEmpty then "none" else ":".intercalate ds)
 
 def showBech (r : Except BechErr (List UInt8 × List Nat × BechVer)) (withVer : Bool) : String :=
   match r with
@@ -404,6 +410,12 @@ def handle1 : List String → String
           | .pkh h _ => h | .sh h _ => h | .pk s _ => s | .wpkh _ q => q | .wsh _ q => q | .tr _ q => q
           | .p2a _ => [0x4e, 0x73]) ++ " " ++ addrExtras a
     | _, _ => "bad-op"
+  | ["shs", net, sc] => match netOf? net, hexToList? sc with
+    | some net, some sc => "ok " ++ showAddr (.sh (h160 sc) net.sh) ++ " " ++ tok (h160 sc)
+    | _, _ => "bad-op"
+  | ["gseed", n] => match n.toNat? with
+    | some n => if 16 ≤ n && n ≤ 64 then "ok " ++ toString n else "err"
+    | none => "bad-op"
   | ["xtrv", net, s] => match netOf? net, hexToList? s with
     | some net, some s => showXtrV s net
     | _, _ => "bad-op"
